@@ -150,7 +150,18 @@ fn one_connection(ctx: &mut Ctx) -> ScResult {
     let mut fm = FrameModel { buf: VecDeque::new() };
     let mut pulls = 0usize;
     let mut delivered = 0usize;
-    let seg_mode = ctx.ch.below(5);
+    // segmentation: 0 one byte at a time, 1 everything at once, 2 1..3 bytes, 3 up to 2000 bytes,
+    // 4 anything, 5 frame-aligned (the sender writes frame by frame and the network keeps the
+    // boundaries: each push carries exactly one whole frame, sometimes two or three)
+    let seg_mode = ctx.ch.below(6);
+    let mut boundaries: Vec<usize> = vec![];
+    {
+        let mut o = 0usize;
+        for f in &frames {
+            o += 2 + f.len();
+            boundaries.push(o);
+        }
+    }
     let drain_mode = ctx.ch.below(4); // 0 drain after each push, 1 random pulls, 2 drain only at the end, 3 single pull per push
     if ctx.ch.coin() {
         // pull before anything arrives
@@ -165,6 +176,14 @@ fn one_connection(ctx: &mut Ctx) -> ScResult {
             1 => rem,
             2 => ctx.ch.range(1, 3) as usize,
             3 => ctx.ch.range(1, 2000) as usize,
+            5 => {
+                let k = if ctx.ch.rare(1, 4) { ctx.ch.range(2, 3) as usize } else { 1 };
+                let next: Vec<usize> = boundaries.iter().copied().filter(|b| *b > pos).collect();
+                match next.get(k - 1).or(next.last()) {
+                    Some(b) => b - pos,
+                    None => rem,
+                }
+            }
             _ => ctx.ch.range(1, rem as u64) as usize,
         }
         .min(rem);
